@@ -28,6 +28,8 @@ def supported(tr):
     minute = cfgk.get("frequency", "1d") == "1m"
     if sim.get("matching_type", "current_bar") not in (("current_bar", "vwap", "next_bar") if minute else ("current_bar", "vwap")):
         return "matching_type"
+    if any(c.get("phase") == "BT" for c in tr.calls):
+        return "strategy_calls_before_the_open"      # calls from a handler of the before-trading events (the world's day starts its calls with the auction)
     if any(c.get("from_trade_handler") for c in tr.calls):
         return "strategy_acts_inside_trade_handler"        # the strategy sent or cancelled an order from inside a TRADE handler: the matching pass was re-entered
     if not tr.rec.inputs or tr.rec.inputs[0]["k"] != "P":
@@ -57,7 +59,7 @@ def cfg_toks(ix, cfgk):
     t += [str(int(x)) for x in [am.get("validate_stock_position", True)] + common]
     t += [str(int(x)) for x in [am.get("validate_future_position", True)] + common]
     t += [str(int(am.get("stock_t1", True))), str(int(bool(am.get("dividend_reinvestment", False)))), str(int(bool((cfgk.get("base_extra") or {}).get("forced_liquidation", True)))),
-          str(int(sim.get("matching_type", "current_bar") in ("current_bar", "vwap")))]
+          str(int(sim.get("matching_type", "current_bar") in ("current_bar", "vwap"))), str(int(cfgk.get("frequency", "1d") == "1d"))]
     return t
 
 
